@@ -157,8 +157,10 @@ use std::collections::HashMap;
 //@requires
     all_el_wf(contents@),
     exists|lo: int, hi: int| wf_forest(collect_spec(*self, contents@, false).0, lo, hi),
+    2 * forest_size(collect_spec(*self, contents@, false).0) < usize::MAX,
 //@ensures label=build_remove_marker_post props=C02,C03,C04,C15
     mm_post(collect_spec(*self, contents@, false).0, r@),
+    r@ == mm_spec(collect_spec(*self, contents@, false).0),
 //@end
 
 //@fn id=remove file=code/remover.rs name=remove in="impl Remover" props=C01,C02,C03,C04
@@ -166,9 +168,11 @@ use std::collections::HashMap;
 //@requires
     all_el_wf(content@),
     exists|lo: int, hi: int| wf_forest(collect_spec(*self, content@, false).0, lo, hi),
+    2 * forest_size(collect_spec(*self, content@, false).0) < usize::MAX,
     forall|x: usize| #[trigger] forest_endpoint(collect_spec(*self, content@, false).0, x) ==> x <= raw.spec_bytes().len() && cb(raw.spec_bytes(), x as int),
 //@ensures label=remove_deletes_markers props=C01,C02,C03
     mm_post(collect_spec(*self, content@, false).0, r.1@),
+    r.1@ == mm_spec(collect_spec(*self, content@, false).0),
     wf_ranges(marker_ranges(r.1@), raw.spec_bytes()),
     encode_utf8(r.0@) == del_from(raw.spec_bytes(), marker_ranges(r.1@), 0),
 //@ensures label=remove_identity props=C04
@@ -180,7 +184,7 @@ use std::collections::HashMap;
     encode_utf8(new_content@) == del_from(raw.spec_bytes(), marker_ranges(markers@), markers@.len() - it.index@),
     markers@.len() == 0 ==> new_content@ == raw@,
 //@at body-start
-    hide(collect_spec); hide(forest_endpoint); hide(forest_covered); hide(wf_forest); hide(all_el_wf);
+    hide(collect_spec); hide(forest_endpoint); hide(forest_covered); hide(wf_forest); hide(all_el_wf); hide(mm_spec); hide(forest_size);
 //@at before "let mut new_content"
     proof {
         let b = raw.spec_bytes();
